@@ -2,6 +2,7 @@
 import ast
 from ..core import Result
 from ..pm import AnalysisError, unparse
+from ..match import Code
 from ..rank import Rank
 
 META = {
